@@ -384,6 +384,7 @@ type explorer struct {
 	name       string
 	maxSteps   int64
 	maxPaths   int64
+	maxDepth   int
 	maxPreempt int
 	trackRaces bool
 
